@@ -189,6 +189,8 @@ pub struct World {
     pub paused: bool,
     /// last price the harness submitted to each vAMM's oracle
     pub oracle_model: Vec<u128>,
+    pub engine_code: u64,
+    pub fund_code: u64,
     pub alien_vamm: Option<Addr>,
     pub orphan_vamm: Option<Addr>,
     /// history model of funding (advanced by `run_history` only)
@@ -715,6 +717,8 @@ impl World {
             mock_feed_code,
             paused: false,
             oracle_model: cfg.vamms.iter().map(|v| v.oracle_price).collect(),
+            engine_code,
+            fund_code,
             alien_vamm,
             orphan_vamm,
             fmodel: Default::default(),
